@@ -526,11 +526,19 @@ def classify_tar(ctx, T, job, res):
         key = None
         if clause == "terminates":
             if data[:2] == b"\x1f\x8b":
-                try:
-                    zlib.decompressobj(31).decompress(data)
-                    broken = False
-                except zlib.error:
-                    broken = True
+                # zlib's own verdict on the stream, member by member: a data error anywhere (flipped bit, garbage after a
+                # complete member) is what makes gzip.c's process_data spin (inflate returns Z_DATA_ERROR without progress)
+                broken, rest = False, data
+                for _ in range(16):
+                    o = zlib.decompressobj(31)
+                    try:
+                        o.decompress(rest)
+                    except zlib.error:
+                        broken = True
+                        break
+                    if not o.eof or not o.unused_data:
+                        break
+                    rest = o.unused_data
                 if broken:
                     key = TL.KEY_GZIP
             if key is None and res.get("listing"):
@@ -742,5 +750,36 @@ def replay(ctx, path):
         bad = hl_spec_verdict(rp["line"], impl[0], spec[0]) if impl else ["crash"]
         print("clauses violated:", bad)
         return 1 if crash or bad or impl != model else 0
+    if rp.get("unit") == "parse" and "line" in rp:
+        ctx.lean_build(["sqfsmodel"])
+        lib = ctx.build_lib("san")
+        exe = ctx.cc("h_c07_parse", ["h_c07_parse.c"], flags=["-I%s" % (vlib.REPO / "bin" / "gensquashfs" / "src")],
+                     libs=[str(lib)] + vlib.CODEC_LIBS + (["-lselinux"] if os.path.exists("/usr/include/selinux/selinux.h") else []))
+        impl, crash = run_harness(ctx, exe, [rp["line"]], timeout=120)
+        model = ctx.driver(["c07"], rp["line"] + "\n")
+        print("line  :", rp["line"][:400])
+        print("impl  :", impl, "crash:", (crash[1], san_head(crash[2])) if crash else None)
+        print("model :", model)
+        return 1 if crash or not impl or not same_answer(rp["line"].split()[0], impl[0], model[0]) else 0
+    if rp.get("unit") == "tool-tar" and "data_b64" in rp:
+        ctx.lean_build(["sqfsmodel"])
+        T = TL.Tools(ctx)
+        data = base64.b64decode(rp["data_b64"])
+        expect = [m.encode() for m in rp["expect_members"]] if rp.get("expect_members") else None
+        res = T.run_tar(data, expect, timeout=TL.TIMEOUT * 3)
+        print("label :", rp.get("label"), "bytes:", len(data))
+        print("lister:", res.get("list_rc"), (res.get("listing") or [])[-3:])
+        print("tar2sqfs exit:", res.get("rc"), "stderr:", res.get("stderr", "")[-300:])
+        for clause, detail in res["bad"]:
+            print("violated:", clause, "-", san_head(detail) if clause == "no-crash" else detail)
+        return 1 if res["bad"] else 0
+    if rp.get("unit") == "tool-gen":
+        T = TL.Tools(ctx)
+        res = T.run_gen(rp.get("pack"), rp.get("sort"), rp.get("xattr"), timeout=TL.TIMEOUT * 3)
+        print("label :", rp.get("label"))
+        print("gensquashfs exit:", res["rc"], "stderr:", res["stderr"][-300:])
+        for clause, detail in res["bad"]:
+            print("violated:", clause, "-", san_head(detail) if clause == "no-crash" else detail)
+        return 1 if res["bad"] else 0
     print("replay file names a broken obligation, no input to replay:", json.dumps(rp)[:500])
     return 1
